@@ -26,7 +26,7 @@ func init() {
 	Register(&Property{
 		ID:             "C08",
 		Run:            runC08,
-		Rule:           "runs = a real client and 1-3 real servers; 30-150 client ticks with the meter appending readings (positive, negative, sentinel, unparseable; all within 32 signed bits) while the fabric drops / duplicates / delays / reorders every datagram independently and sync sessions are refused / reset / cut short / corrupted, with optional rotation, multi-day outages (clock jumps of 300-1000 slots) and server restart; then faults stop, a sync round runs, and every slot of the contacted server's window that is still acceptable and for which the device has a reading must hold a record (the documented +-432 range, and for older unrecovered slots the contacted server's own range, learned by offering it the original datagram); at all times all acted-on datagrams of one slot are byte-identical and no slot of the device is banned; non-trivial = at least one datagram was lost and later recovered by a retransmission; distinct = distinct decision signatures",
+		Rule:           "runs = a real client and 1-3 real servers; 30-150 client ticks with the meter appending readings (positive, negative, sentinel, unparseable; all within 32 signed bits) and sometimes rewriting a row it had left unreadable while the fabric drops / duplicates / delays / reorders every datagram independently and sync sessions are refused / reset / cut short / corrupted, with optional rotation, multi-day outages (clock jumps of 300-1000 slots) and server restart; then faults stop, a sync round runs, and every slot of the contacted server's window that is still acceptable and for which the device has a reading must hold a record (the documented +-432 range, and for older unrecovered slots the contacted server's own range, learned by offering it the original datagram); at all times all acted-on datagrams of one slot are byte-identical and no slot of the device is banned; non-trivial = at least one datagram was lost and later recovered by a retransmission; distinct = distinct decision signatures",
 		Real:           []string{"client send loop, sync rounds, reply parser, history store, energy file reader", "server report handler, sync handler, rotation loop, restart"},
 		Stub:           []string{"kernel sockets (UDP queue / simulated TCP connections with a fault layer)", "the meter firmware (harness writes energy_data.csv)"},
 		Assumptions:    []string{"readings fit 32 signed bits (the property's own restriction)", "the coverage claim is about the server contacted by the final sync round"},
